@@ -510,37 +510,45 @@ SPIN_MENU = [0., 0.5, 1.5]
 
 
 def check_setter(case, ctx):
+    """History: construct with hist[0], then assign hist[1], hist[2] ... through the documented setter; the
+    object is EVALUATED after construction and after every assignment (a value memoised on first use must
+    follow the assignment), each time against a freshly constructed object with the current value."""
     ctx.tag('setter:history')
     cls, hist = case['cls'], case['hist']
     sig = {'cls': cls, 'clause_kind': 'setter'}
-    if cls in ('HarmonicVib', 'QRRHOVib'):
-        sub = case.get('sub')
-        extra = dict(Bav=1e-44, v0=100., alpha=4) if cls == 'QRRHOVib' else {}
-        obj = build_mode(dict(k=cls, w=hist[0], sub=sub, **extra))
-        for w in hist[1:]:
-            obj.vib_wavenumbers = list(w)
-            ctx.trans()
-        fresh = build_mode(dict(k=cls, w=hist[-1], sub=sub, **extra))
-    else:
-        obj = build_mode(dict(k='GroundStateElec', E=-1.5, spin=hist[0]))
-        for s_ in hist[1:]:
-            obj.spin = s_
-            ctx.trans()
-        fresh = build_mode(dict(k='GroundStateElec', E=-1.5, spin=hist[-1]))
+    sub = case.get('sub')
+    extra = dict(Bav=1e-44, v0=100., alpha=4) if cls == 'QRRHOVib' else {}
+
+    def fresh(v):
+        if cls in ('HarmonicVib', 'QRRHOVib'):
+            return build_mode(dict(k=cls, w=v, sub=sub, **extra))
+        return build_mode(dict(k='GroundStateElec', E=-1.5, spin=v))
+
+    obj = fresh(hist[0])
     ctx.trace()
-    ctx.state(('setter', cls, hist, case.get('sub')))
-    for T in (110., 900.):
-        for g in GET + (['q'] if cls == 'HarmonicVib' else []):
-            a = _f(call(obj, 'get_' + g, T=T))
-            b = _f(call(fresh, 'get_' + g, T=T))
-            ctx.evals(2)
-            ctx.close('setter history gives the same values as a fresh object', a, b, dict(sig, getter=g), case,
-                      rtol=1e-13, atol=1e-300)
-    if hasattr(obj, 'get_ZPE'):
-        ctx.close('setter history gives the same values as a fresh object', _f(obj.get_ZPE()), _f(fresh.get_ZPE()),
-                  dict(sig, getter='ZPE'), case, rtol=1e-13, atol=1e-300)
+    ctx.state(('setter', cls, hist, sub))
+    for n, v in enumerate(hist):
+        if n > 0:
+            if cls in ('HarmonicVib', 'QRRHOVib'):
+                obj.vib_wavenumbers = list(v)
+            else:
+                obj.spin = v
+            ctx.trans()
+        ref_obj = fresh(v)
+        for T in (110., 900.):
+            for g in GET + (['q'] if cls == 'HarmonicVib' else []):
+                a = _f(call(obj, 'get_' + g, T=T))
+                b = _f(call(ref_obj, 'get_' + g, T=T))
+                ctx.evals(2)
+                ctx.close('setter history gives the same values as a fresh object', a, b,
+                          dict(sig, getter=g, step='first' if n == 0 else 'after assignment'), case,
+                          rtol=1e-13, atol=1e-300)
+        if hasattr(obj, 'get_ZPE'):
+            ctx.close('setter history gives the same values as a fresh object', _f(obj.get_ZPE()),
+                      _f(ref_obj.get_ZPE()), dict(sig, getter='ZPE', step='first' if n == 0 else 'after assignment'),
+                      case, rtol=1e-13, atol=1e-300)
     if len(hist) > 1:
-        ctx.nontrivial(('setter', cls, hist, case.get('sub')))
+        ctx.nontrivial(('setter', cls, hist, sub))
 
 
 def _setter_cases():
